@@ -133,6 +133,7 @@ class SSHChannel(Generic[AnyStr], SSHPacketHandler):
 
         self._recv_state = 'closed'
         self._recv_eof_on_close = False
+        self._recv_discarded = False
         self._init_recv_window = window
         self._recv_window = window
         self._recv_pktsize = max_pktsize
@@ -283,6 +284,7 @@ class SSHChannel(Generic[AnyStr], SSHPacketHandler):
         self._recv_buf = []
         self._recv_buf_len = 0
         self._recv_paused = False
+        self._recv_discarded = True
 
         # If recv is close_pending, we know send is already closed
         if self._recv_state == 'close_pending':
@@ -365,7 +367,9 @@ class SSHChannel(Generic[AnyStr], SSHPacketHandler):
             self._deliver_data(data, datatype)
 
         if not self._recv_buf and self._recv_paused != 'starting':
-            if self._encoding and not exc and \
+            # Don't look for an incomplete character at the end of the
+            # stream when incoming data was discarded after a local close
+            if self._encoding and not exc and not self._recv_discarded and \
                     self._recv_state in ('eof_pending', 'close_pending'):
                 try:
                     for decoder in self._decoders.values():
